@@ -207,6 +207,14 @@ def correspondence(ctx):
         l = core.impl(lambda: GMMStats.from_hdf5(path))
         if not same(l):
             bad.append({"op": "h5_stats:from_hdf5", "input": gen.stats_impl(s), "model": o["loaded"], "impl": repr(l)})
+        same_shape = GMMStats(s.n_gaussians, s.n_features)
+        same_shape.n = np.arange(s.n_gaussians, dtype=np.int64) + 1  # hard counts typed in by hand: integer-typed arrays
+        same_shape.sum_px = np.ones(s.shape, dtype=np.int64)
+        same_shape.sum_pxx = np.ones(s.shape, dtype=np.float32)
+        r = core.impl(lambda: same_shape.load(path))
+        if isinstance(r, core.ImplError) or not same(same_shape):
+            bad.append({"op": "h5_stats:load_resize", "input": gen.stats_impl(s), "model": o["loaded"], "impl": repr(r) if isinstance(r, core.ImplError) else gen.stats_impl(same_shape),
+                        "note": "load() into an object of the same shape holding integer-typed arrays"})
         other = GMMStats(s.n_gaussians + 1, s.n_features + 2)
         r = core.impl(lambda: other.load(path))
         if isinstance(r, core.ImplError) or not same(other):
